@@ -6,7 +6,7 @@ from vt.docgen import FieldSel, FragDef, InlineFrag, Op, Spread
 from vt.smodel import NODEF, DirectiveDef, N, NN, L, is_nn, named_of, nullable, print_value, tstr
 
 LEVEL = "fault_enumeration"
-N_CASES = {"quick": 200, "thorough": 5000}
+N_CASES = {"quick": 200, "thorough": 1500}
 DOCS_PER_SCHEMA = 3
 MIN_NONTRIVIAL = 100
 RULE = ("case = random schema (with a recording query-side directive and a schema-only directive) x %d valid documents "
